@@ -308,8 +308,9 @@ class Lexer(ITokenizer):
 		found_pair = [pair for pair in self._definition.quote if source.startswith(pair['open'], begin)]
 		pair = found_pair[0]
 		end = begin + len(pair['open'])
-		while end < len(source):
-			index = source.find(pair['close'], end)
+		search = end
+		while search < len(source):
+			index = source.find(pair['close'], search)
 			if index == -1:
 				break
 
@@ -319,6 +320,9 @@ class Lexer(ITokenizer):
 			end = index + len(pair['close'])
 			if not escaped:
 				break
+
+			# エスケープされるのは1文字のみ(3連引用符の場合、残りの引用符は閉じ引用符の一部になり得る)
+			search = index + 1
 
 		value = source[begin:end]
 		token_type = TokenTypes.Regexp if value[0] == '/' else TokenTypes.String
